@@ -47,7 +47,7 @@ NetDef(e, o) == /\ o.adj = NoDiag(SubMat(o.R, MvE(e)))
 RpTags(e) == e.kind \o "," \o e.mode \o (IF HasMv(e) THEN ",missing" ELSE "")
              \o (IF e.kind = "rp" /\ e.dim > 1 THEN ",embedded" ELSE "")
              \o (IF Len(Traj(e)) = 1 THEN ",single_state" ELSE "")
-             \o (IF e.obs.via = 1 THEN ",via_setter" ELSE "")
+             \o (IF e.obs.via = 1 THEN ",via_setter" ELSE IF e.obs.via = 2 THEN ",there_and_back" ELSE "")
 RpVerdict(e) ==
   LET R_(c, s) == <<"REJECT", c, s, RpTags(e)>>
       n == Len(Traj(e))
